@@ -9,7 +9,7 @@ imports func_adl_xAOD.common.local_dataset.
         "chunks": [(stream_type, content), ...],   # what run(stream=True) yields, in order
         "fail_after": k | None,   # raise DockerException from the generator after k chunks were yielded
         "result": bool,           # the container writes ANALYSIS.root into the volume mounted at /results
-        "extras": [(name, bytes)] # further files the container leaves in /results
+        "extras": [(name, bytes | None)]  # further files (None: a directory) the container leaves in /results
         "exit_code": int,
     }
 
@@ -83,7 +83,10 @@ class DockerClient:
                 if script.get("result"):
                     (Path(d) / RESULT_NAME).write_bytes(b"root-file-content")
                 for name, content in script.get("extras", []):
-                    (Path(d) / name).write_bytes(content)
+                    if content is None:
+                        (Path(d) / name).mkdir(exist_ok=True)
+                    else:
+                        (Path(d) / name).write_bytes(content)
             k = script.get("fail_after")
             for i, ch in enumerate(script.get("chunks", [])):
                 if k is not None and i >= k:
